@@ -179,7 +179,7 @@ def py_spec_snaps(o, tick):
                 pend.pop(fs, None)
         elif k == 'A':
             now += op[1]
-        elif k == 'W':
+        elif k in ('W', 'WO', 'WC'):
             continue
         elif k == 'S':
             snap = {}
@@ -322,6 +322,21 @@ def wrapped_always_enabled(o):
                 continue        # not run by the wrapper (e.g. the interpreter finalising an abandoned generator itself)
             if codes[op[2]]['lbl'] in wrapped and op[1] not in en:
                 return False, 'decorated function (label %d) executed line %d with the profiler off' % (codes[op[2]]['lbl'], op[5])
+    return True, ''
+
+
+def program_windows_stay_enabled(o):
+    """While the program itself holds an enable window open (`with prof:` / its own enable_by_count()), nothing may
+    switch its thread's profiler off: a D event of that thread inside such a window is a violation."""
+    depth = {}
+    for op in o['ops']:
+        k = op[0]
+        if k == 'WO':
+            depth[op[1]] = depth.get(op[1], 0) + 1
+        elif k == 'WC':
+            depth[op[1]] = depth.get(op[1], 0) - 1
+        elif k == 'D' and depth.get(op[1], 0) > 0:
+            return False, 'the profiler was switched off in thread %d while the program held an enable window open' % op[1]
     return True, ''
 
 
@@ -475,6 +490,8 @@ def run_property(prop, module, theorems, tier, seed, nquick, nthorough, feature_
         if ok and aspect in ('hits', 'time') and not outside and 'selfdisable' not in p['features']:
             # (programs whose functions switch their own profiler off legitimately run lines unprofiled)
             ok, why = wrapped_always_enabled(o)
+            if ok:
+                ok, why = program_windows_stay_enabled(o)
         if ok and o.get('peeks') and o.get('snaps'):
             ok, why = peeks_below_final(o)
         if p['threads']:
@@ -515,7 +532,7 @@ def run_property(prop, module, theorems, tier, seed, nquick, nthorough, feature_
             coq_ok = {'hits': v[1], 'time': v[1] and v[2], 'mono': v[3]}[aspect]
             if coq_ok != ok and not p['threads'] and (o.get('errA') == o.get('errB')) and hyp.get('SegmentsClosed', True) \
                     and hyp.get('SnapsQuiescent', True) and not o.get('impure') and 'mid-run read' not in why \
-                    and not o.get('not_registered') and 'decorated function' not in why:
+                    and not o.get('not_registered') and 'decorated function' not in why and 'enable window' not in why:
                 res.infra_errors.append('Coq-side and Python-side specification disagree on program %d (%s vs %s: %s)' % (i, coq_ok, ok, why))
         if not ok:
             res.spec_fails.append(dict(case=sample(p, o, 60), program=p['files'], why=why, finding=fid,
